@@ -1,6 +1,7 @@
 package main
 
 import (
+	"regexp"
 	"fmt"
 	"go/ast"
 	"go/types"
@@ -165,4 +166,22 @@ func (fc *FuncContract) usesGhost(name string) bool {
 		return false
 	}
 	return has(fc.Requires) || has(fc.Ensures) || has(fc.Invs) || has(fc.Sites)
+}
+
+// mentionsOwnGhost: the clause talks about ghost state private to one execution of the function (called(..)
+// flags, tracked ghosts).
+func (fc *FuncContract) mentionsOwnGhost(c *Clause) bool {
+	if strings.Contains(c.Src, "called(") {
+		return true
+	}
+	for _, s := range fc.Sites {
+		if (s.Kind == "track" || s.Kind == "trackresult") && identRe(s.Name).MatchString(c.Src) {
+			return true
+		}
+	}
+	return false
+}
+
+func identRe(name string) *regexp.Regexp {
+	return regexp.MustCompile(`(^|[^A-Za-z0-9_.])` + regexp.QuoteMeta(name) + `($|[^A-Za-z0-9_])`)
 }
